@@ -155,7 +155,8 @@ pub fn model_call(plan: &Plan, built: &Built, cut: usize, unauth: bool) -> (&'st
     } else if plan.layers == L_ENC {
         ("repair_enc", vec![jbytes(&built.key), jbytes(&built.nonce), jbytes(body), json!(u64::from(unauth))])
     } else {
-        ("", vec![])
+        // archives with the compression layer: tables of the real brotli decoder, RunFsStack.v
+        crate::fsstack::model_call(plan, built, cut, unauth)
     }
 }
 
@@ -192,7 +193,11 @@ pub fn c02_cases(rng: &mut Rng, tier: &str, out: &mut Out) {
                 }
                 let r = repair_bytes(&built.bytes[..cut], &built.privs, unauth);
                 let oracle = oracle_c02(plan, built, &r, cut >= built.header_len);
-                let (f, args) = if cut % model_stride == 0 || !oracle.is_ok() { model_call(plan, built, cut, unauth) } else { ("", vec![]) };
+                // work package hdrsrc: the model runs on the archive bytes INCLUDING the header (every cut, the
+                // header's too); every 16th case with the model's own ECIES unwrap
+                let (f, args) = if cut % model_stride == 0 || !oracle.is_ok() {
+                    if cfg!(feature = "scaled") { crate::hdrsrc::archive_model_call(plan, built, cut, unauth, &[], cut % 16 == 3) } else { model_call(plan, built, cut, unauth) }
+                } else { ("", vec![]) };
                 let dist_to_end = built.bytes.len() - cut;
                 out.case(&Case {
                     id: format!("c02-a{ai}-cut{cut}-u{}", u8::from(unauth)),
@@ -394,6 +399,7 @@ pub fn c05_blocks_cases(rng: &mut Rng, tier: &str, out: &mut Out) {
         let plan = Plan { names, pieces, layers, level: *rng.pick(&[0u32, 1, 5, 9, 11]), recipients: 1, reader_key: 0 };
         let Ok(built) = build(rng, &plan) else { continue };
         let mut msg: Option<String> = None;
+        let mut model_cases: Vec<(bool, &'static str, Vec<Value>, Vec<Vec<u64>>, Option<String>)> = Vec::new();
         let complete = |r: &Repaired, how: &str| -> Option<String> {
             if let Some(p) = &r.crashed {
                 return Some(format!("undamaged compressed archive ({how}): repair panicked: {p}"));
@@ -414,8 +420,14 @@ pub fn c05_blocks_cases(rng: &mut Rng, tier: &str, out: &mut Out) {
                 continue;
             }
             let r = repair_bytes(&built.bytes, &built.privs, unauth);
+            let m = complete(&r, "from memory");
+            // model comparison of the from-memory repair (RunFsStack.repair_comp / repair_comp_enc)
+            let (f, args) = model_call(&plan, &built, built.bytes.len(), unauth);
+            if !f.is_empty() {
+                model_cases.push((unauth, f, args, r.rows.clone(), m.clone()));
+            }
             if msg.is_none() {
-                msg = complete(&r, "from memory");
+                msg = m;
             }
         }
         for piece in [1usize, 2, 3, 7] {
@@ -439,6 +451,19 @@ pub fn c05_blocks_cases(rng: &mut Rng, tier: &str, out: &mut Out) {
             meta: json!({"layers": layers, "level": plan.level, "entropy": entropy, "total": total, "archive_len": built.bytes.len(),
                          "pieces": plan.pieces.iter().map(|p| (p.0, p.1.len())).collect::<Vec<_>>()}),
         });
+        for (unauth, f, args, rows, m) in model_cases {
+            out.case(&Case {
+                id: format!("c05-blocks-{k}-model-u{}", u8::from(unauth)),
+                model_fn: f,
+                args,
+                imp: json!(rows),
+                oracle_ok: m.is_none(),
+                oracle_msg: m.unwrap_or_default(),
+                class: format!("intact-compressed from-memory model layers={layers} unauth={unauth} entropy={entropy} blocks={}", blocks.min(12)),
+                nontrivial: true,
+                meta: json!({"layers": layers, "level": plan.level, "entropy": entropy, "total": total, "archive_len": built.bytes.len(), "unauth": unauth}),
+            });
+        }
     }
 }
 
